@@ -54,6 +54,29 @@ Theorem C15_greedy_one_to_one D ltb dm fuel rows cols :
 Proof. exact (greedy_nodup D ltb dm fuel rows cols). Qed.
 Print Assumptions C15_greedy_one_to_one.
 
+(* if every selected source band's nearest reference band is distinct and within tolerance, each source band gets exactly that band.
+   The conclusion mentions only [nearest], which is defined by the distances alone: the position of a band in the reference file (its
+   column) plays no role, so re-ordering the bands of either file re-orders [dm] and [rbands] together and yields the same band pairs.
+   [ltbD] must be a strict order on distances (as < on non-NaN doubles is). *)
+Theorem C15_distinct_nearest_gets_nearest D (ltbD : D -> D -> bool) overD sbands rbands dm (nearest : nat -> nat) :
+  (forall a, ltbD a a = false) -> (forall a b c, ltbD a b = true -> ltbD b c = true -> ltbD a c = true) ->
+  length sbands <= length rbands ->
+  (forall i, i < length sbands -> nearest i < length rbands) ->
+  (forall i i', i < length sbands -> i' < length sbands -> nearest i = nearest i' -> i = i') ->
+  (forall i, i < length sbands -> exists d, dm i (nearest i) = Some d /\ overD d = false /\
+       forall j d', j < length rbands -> j <> nearest i -> dm i j = Some d' -> ltbD d d' = true) ->
+  match_core D ltbD overD sbands rbands true dm false = inr (sbands, map (fun i => nth (nearest i) rbands 0) (seq 0 (length sbands))).
+Proof.
+  intros Hi Ht Hnm Hr Hinj Hn.
+  exact (distinct_nearest_gets_nearest D ltbD overD sbands rbands true dm false Hi Ht nearest eq_refl eq_refl Hnm Hr Hinj Hn).
+Qed.
+Print Assumptions C15_distinct_nearest_gets_nearest.
+(* non-vacuity: three source bands whose nearest reference bands are columns 2, 0, 3 of four (distances in thousandths) *)
+Example C15_distinct_nearest_example :
+  let dm := fun i j => nth_error (nth i [[300; 200; 5; 400]; [2; 150; 310; 420]; [500; 300; 200; 9]] []) j in
+  match_core nat Nat.ltb (fun d => Nat.ltb 100 d) [1; 2; 3] [4; 5; 6; 7] true dm false = inr ([1; 2; 3], [6; 4; 7]).
+Proof. vm_compute. reflexivity. Qed.
+
 (* the selected bands exist, are neither alpha nor mask bands, and are the user's selection when one is given *)
 Theorem C15_band_info_sound im bands sel ws : band_info im bands = inr (sel, ws) ->
   (forall b, In b sel -> 1 <= b <= length im /\ exists bd, nth_error im (b - 1) = Some bd /\ nonalpha_b bd = true) /\
